@@ -1,10 +1,14 @@
 /-
 C19 — The control socket delivers messages, descriptors and credentials intact or not at all.
 Theorems about Model/Socket.lean (all histories, all buffer sizes), tied to pkg/unixsocket and to
-the gob-framed layer by the differential on real socketpairs.  PROPERTY THEOREMS ONLY.
+the gob-framed layer (Model/Gob.lean: encoder, datagram queue, decoder; all histories) by the
+regenerated (*socket).SendMsg/RecvMsg and the differential on real socketpairs.  PROPERTY THEOREMS ONLY.
 -/
 import GoSandbox.Model.Socket
 import GoSandbox.Model.SocketGen
+import GoSandbox.Model.Gob
+import GoSandbox.Model.GobGen
+import GoSandbox.Lemmas.Gob
 namespace GoSandbox.Props.C19
 open GoSandbox.Model.Socket
 
@@ -143,5 +147,78 @@ theorem C19_tie_recv :
     ([1, 2, 3].all fun dl => [0, 1, 2, 3].all fun nf => [1, 2, 3].all fun dcap => [0, 1, 2, 3].all fun fcap => [false, true].all fun pc =>
       agrees ⟨List.replicate dl 7, (List.range nf).map (· + 10), none⟩ dcap fcap pc) = true := by
   decide +kernel
+
+/-! ### the gob-framed layer (container/socket_linux.go) -/
+section Gob
+open GoSandbox.Model.Gob GoSandbox.Lemmas.Gob
+
+/-- **gob layer: whole and in order, first use of each type included** — for every configuration of
+message types (any sharing of nested type descriptors between them, any descriptor sizes, any cap) and
+every history of sends and receives in which a send that is rejected for its size was not the first
+use of a type on this encoder (`firstUsesFit`; what package container guarantees: its first command
+and first reply are small): no receive ever fails to decode, and the values received so far followed
+by the values still in flight are exactly the values of the accepted sends, in order. -/
+theorem C19_gob_whole_in_order (c : Cfg) (ops : List Model.Gob.Op) (hfit : firstUsesFit c init ops = true) :
+    (∀ o ∈ (run c init ops).2, o ≠ Out.decodeError) ∧
+    gots (run c init ops).2 ++ pending (run c init ops).1.q = accepted c init ops := by
+  have h := run_inv c ops init (init_inv c) hfit
+  exact ⟨h.2.1, by simpa [pending, init] using h.2.2⟩
+
+/-- **a message that does not fit is rejected on the sending side and nothing of it is delivered**:
+a rejected send leaves the datagram queue and the receiver's decoder exactly as they were. -/
+theorem C19_gob_rejected_sends_nothing (c : Cfg) (s : St) (k : Kind) (p : List Nat)
+    (h : (step c s (.send k p)).2 = .rejected) :
+    (step c s (.send k p)).1.q = s.q ∧ (step c s (.send k p)).1.known = s.known := by
+  simp only [step, encode] at h ⊢
+  by_cases hsz : frameSize c ((newDescs c s.sent k).map Item.desc ++ [Item.val k p]) > c.cap
+  · simp [hsz]
+  · simp [hsz] at h
+
+/-- an accepted send never exceeds the cap, so the receiver's 32 KiB buffer always holds it whole
+(the raw layer's truncation case cannot arise for gob-framed messages) -/
+theorem C19_gob_accepted_fits (c : Cfg) (s : St) (k : Kind) (p : List Nat)
+    (h : (step c s (.send k p)).2 = .sent) :
+    ∃ f, (step c s (.send k p)).1.q = s.q ++ [f] ∧ frameSize c f ≤ c.cap ∧ valOf f = some (k, p) := by
+  simp only [step, encode] at h ⊢
+  by_cases hsz : frameSize c ((newDescs c s.sent k).map Item.desc ++ [Item.val k p]) > c.cap
+  · simp [hsz] at h
+  · simp only [hsz, if_false]
+    exact ⟨_, rfl, by omega, valOf_encoded _ k p⟩
+
+def tinyGob : Cfg := { descs := fun k => if k == 0 then [10, 11] else [11, 12], descSize := fun _ => 4, cap := 16 }
+
+/-- **the open known finding `gob-unsent-oversize-first-use`, in the model**: the hypothesis of
+`C19_gob_whole_in_order` is necessary.  An oversize message that is the first use of its type is
+rejected, but the encoder has marked the type's descriptors as emitted: the next (small) message of
+that type reaches a decoder that has never seen them and cannot be decoded — and, descriptor 11 being
+shared, neither can a message of the other type. After a small first use the same oversize message is
+harmless. -/
+theorem C19_gob_oversize_first_use_witness :
+    (run tinyGob init [.send 0 (List.replicate 20 1), .send 0 [1], .recv]).2 = [.rejected, .sent, .decodeError] ∧
+    (run tinyGob init [.send 0 (List.replicate 20 1), .send 1 [1], .recv]).2 = [.rejected, .sent, .decodeError] ∧
+    (run tinyGob init [.send 0 [2], .send 0 (List.replicate 20 1), .send 0 [1], .send 1 [3], .recv, .recv, .recv]).2
+      = [.sent, .rejected, .sent, .sent, .got 0 [2], .got 0 [1], .got 1 [3]] ∧
+    firstUsesFit tinyGob init [.send 0 (List.replicate 20 1), .send 0 [1], .recv] = false ∧
+    firstUsesFit tinyGob init [.send 0 [2], .send 0 (List.replicate 20 1), .send 0 [1], .send 1 [3], .recv, .recv, .recv] = true := by
+  refine ⟨?_, ?_, ?_, ?_, ?_⟩ <;> decide
+
+open GoSandbox.Model.GobGen in
+/-- **tie of the gob layer to the code**: the regenerated `(*socket).SendMsg` (reset the buffer, encode,
+compare with bufferSize, hand the buffer to the raw socket) and `(*socket).RecvMsg` (receive a datagram,
+point the decoder at exactly those bytes, decode) run over the model's encoder, queue and decoder give
+the model's outcome and leave the model's state after every operation, on every history of length ≤ 4
+over {small / oversize message of either of two types with a shared nested descriptor, receive} —
+including the oversize first use, a receive on an empty queue, and sends after rejected sends (a buffer
+that is not reset would accumulate). -/
+theorem C19_tie_gob :
+    ((histories [.send 0 [1], .send 0 (List.replicate 20 1), .send 1 [2, 3], .send 1 (List.replicate 9 5), .recv] 4).all
+      (agrees tinyGob)) = true := by
+  decide +kernel
+
+/-! non-vacuity -/
+example : (GoSandbox.Model.GobGen.histories [Model.Gob.Op.send 0 [1], .send 0 (List.replicate 20 1), .send 1 [2, 3], .send 1 (List.replicate 9 5), .recv] 4).length = 625 := by decide +kernel
+example : firstUsesFit tinyGob init [.send 0 [1], .send 1 [2], .send 0 (List.replicate 20 1), .recv, .recv] = true := by decide
+
+end Gob
 
 end GoSandbox.Props.C19
